@@ -45,6 +45,38 @@ def file_rooted_elems(t):
     return out
 
 
+def whole_file_aggregates(t):
+    """uses of a file-rooted search result other than as the collection an element variable ranges over: its length, a collect() into an
+    Option / Result, a fold .. — anything computed from all items at once"""
+    out = []
+
+    def walk(x, direct):
+        if not isinstance(x, tuple) or not x:
+            return
+        if x[0] in ("const", "obj", "rec", "unknown", "bottom", "param"):
+            return
+        if x[0] == "call" and x[1] in core.SEARCH_FNS and len(x[2]) == 2 and (x[2][1] == FILE or (x[2][1][0] == "agg" and x[2][1][3] and x[2][1][3][0] == ("param", 1))):
+            if not direct:
+                out.append(x)
+            return
+        if x[0] in ("elem", "idx"):
+            walk(x[1], True)
+            return
+        if x[0] in ("iter", "enumerate"):
+            walk(x[1], direct)
+            return
+        for y in x[1:]:
+            if isinstance(y, tuple):
+                if y and isinstance(y[0], tuple):
+                    for z in y:
+                        walk(z, False)
+                else:
+                    walk(y, False)
+
+    walk(t, False)
+    return out
+
+
 def strip_iter(t):
     if not isinstance(t, tuple) or not t:
         return t
@@ -107,7 +139,17 @@ def run(ctx, crate):
                                 if c[1] == VERSION_FN or c[1] in NAME_TABLES or c[1] in core.SEARCH_FNS:
                                     continue
                                 bad.append("file-wide helper %s" % core.short_fn(c[1]))
+                # the verdict may not depend on a quantity computed from the whole file (a count, an all-or-nothing collect, ..)
+                for part in [t] + [p_ for key in B.atoms_of(f) for p_ in key[1:] if isinstance(p_, tuple)]:
+                    for agg in whole_file_aggregates(part):
+                        bad.append("whole-file aggregate over %s" % show(agg)[:60])
+                aggs = [b_ for b_ in bad if b_.startswith("whole-file aggregate")]
                 # table-rooted reports (candidate tables) have no file-rooted element: their channel is the name-keyed table
+                if E is None and aggs:
+                    obs.append(Ob("R19.scope", body.path, "%s: %s does not depend on a quantity computed from the whole file" % (label, show(t)[:60]), False,
+                                  expected="no count / all-or-nothing collect / fold over a search of the whole file", found=sorted(set(aggs)),
+                                  example="a free function next to a contract"))
+                    continue
                 if E is None:
                     tabs = [c for c in T.calls_in(t) if c[1] in NAME_TABLES or c[1].endswith("get_function_definition_memory_args")]
                     ok = bool(tabs) or bool(T.calls_in(t))
